@@ -21,6 +21,8 @@ pub enum ByzLeader {
     Silent,
     OneBlock,
     TwoBlocks,
+    /// equivocates in the last slot of its window: version A to the next leader, version B to the rest
+    TwoBlocksLastSlot,
     Late,
 }
 
@@ -42,6 +44,8 @@ pub struct RunCfg {
     pub tx_rate: u32,
     /// (validator, slots whose dissemination traffic is withheld from it)
     pub withhold: Option<(usize, BTreeSet<u64>)>,
+    /// hostile phase: (from, to, input classes)
+    pub hostile: Option<(Duration, Duration, Vec<&'static str>)>,
     pub label: String,
 }
 
@@ -51,7 +55,9 @@ impl RunCfg {
                "byz_votes": self.byz_votes, "byz_certs": self.byz_certs,
                "crashes": self.crashes.iter().map(|(v, t)| format!("{v}@{}ms", t.as_millis())).collect::<Vec<_>>(), "chaos": self.chaos.name,
                "t_stable_ms": self.t_stable.as_millis() as u64, "delta_ms": self.delta.as_millis() as u64, "duration_ms": self.duration.as_millis() as u64,
-               "dissemination": format!("{:?}", self.diss), "tx_rate": self.tx_rate, "label": self.label})
+               "dissemination": format!("{:?}", self.diss), "tx_rate": self.tx_rate, "label": self.label,
+               "withhold": self.withhold.as_ref().map(|(v, s)| format!("node {v} slots {s:?}")),
+               "hostile": self.hostile.as_ref().map(|(a, b, c)| format!("{}..{} ms {:?}", a.as_millis(), b.as_millis(), c))})
     }
 }
 
@@ -79,6 +85,12 @@ pub struct RunOut {
     pub byz_votes_sent: u64,
     pub byz_certs_sent: u64,
     pub byz_modes: BTreeMap<usize, String>,
+    pub skip_cert_bytes: BTreeMap<u64, Vec<Arc<Vec<u8>>>>,
+    pub hostile_sent: BTreeMap<String, u64>,
+    /// (class, role of the receiving node when it was sent)
+    pub hostile_roles: BTreeSet<String>,
+    /// None = no probe made; Some(answered)
+    pub probe: Option<bool>,
 }
 
 fn window_leader(n: usize, w: u64) -> usize {
@@ -126,6 +138,9 @@ pub async fn execute(cfg: &RunCfg, rng: &mut SRng) -> RunOut {
     let mut crashes = cfg.crashes.clone();
     let mut tx_acc = 0f64;
     let mut max_slot_seen = 0u64;
+    let mut hostile_sent: BTreeMap<String, u64> = BTreeMap::new();
+    let mut hostile_roles: BTreeSet<String> = BTreeSet::new();
+    let mut hrng = crate::common::mk_rng(rng.random(), "hostile");
     while now < cfg.duration {
         tokio::time::sleep(step).await;
         now += step;
@@ -183,7 +198,19 @@ pub async fn execute(cfg: &RunCfg, rng: &mut SRng) -> RunOut {
                     let at = base + Duration::from_millis(400 * k as u64);
                     let a = byz_block(rng, &cfg.ep, leader, slot, par, 1);
                     byz_blocks.push(((slot, a.hash), par));
-                    if cfg.byz_leader == ByzLeader::TwoBlocks && k == 0 {
+                    if cfg.byz_leader == ByzLeader::TwoBlocksLastSlot && k == 3 {
+                        let b = byz_block(rng, &cfg.ep, leader, slot, par, 2);
+                        byz_blocks.push(((slot, b.hash), par));
+                        let next_leader = window_leader(n, w + 1);
+                        for &to in &targets {
+                            let blk = if to == next_leader { &a } else { &b };
+                            for s in &blk.bytes {
+                                for sh in s {
+                                    pending_sends.push((at, leader, to, sh.clone()));
+                                }
+                            }
+                        }
+                    } else if cfg.byz_leader == ByzLeader::TwoBlocks && k == 0 {
                         let b = byz_block(rng, &cfg.ep, leader, slot, par, 2);
                         byz_blocks.push(((slot, b.hash), par));
                         let mut t = targets.clone();
@@ -223,6 +250,24 @@ pub async fn execute(cfg: &RunCfg, rng: &mut SRng) -> RunOut {
         for (_, from, to, b) in due {
             cl.adv_send_shred(from, to, b);
         }
+        // hostile inputs on all five interfaces, interleaved with the normal traffic
+        if let Some((from, to, classes)) = &cfg.hostile {
+            if now >= *from && now < *to && (now.as_millis() / 10) % 12 == 0 {
+                let correct = cl.correct();
+                if !correct.is_empty() {
+                    let fin = { let mut f = 0; for v in &correct { f = f.max(cl.finalized_slot(*v).await); } f };
+                    let hc = crate::hostile::HostileCtx { ep: &cfg.ep, byz: &cfg.byz, correct: &correct, seen_blocks: &byz.seen_blocks, cur_slot: max_slot_seen, finalized: fin };
+                    let class = classes[hrng.random_range(0..classes.len())];
+                    for h in crate::hostile::generate(&mut hrng, &hc, class) {
+                        *hostile_sent.entry(h.class.to_string()).or_insert(0) += 1;
+                        let cur_w = max_slot_seen / 4;
+                        let role = if window_leader(n, cur_w) == h.to { "leader-producing" } else if window_leader(n, cur_w + 1) == h.to { "next-leader-waiting" } else { "follower" };
+                        hostile_roles.insert(format!("{}@{}", h.class, role));
+                        cl.net.inject((h.ep, h.to), h.bytes);
+                    }
+                }
+            }
+        }
         // sample progress
         if (now.as_millis() / 10) % 10 == 0 {
             let mut m = BTreeMap::new();
@@ -231,6 +276,16 @@ pub async fn execute(cfg: &RunCfg, rng: &mut SRng) -> RunOut {
             }
             samples.push((now, m));
         }
+    }
+    // probe: does a correct node's repair responder still answer?
+    let mut probe = None;
+    if let (Some((&bz, ep_r)), Some(&target)) = (cl.byz_repair_eps.iter().next(), cl.correct().first()) {
+        while ep_r.try_receive_raw().is_some() {}
+        let known = byz.seen_blocks.iter().next_back().copied().unwrap_or((1, [1u8; 32]));
+        let req = repair_request(bz as u64, &alpenglow::repair::RepairRequestType::LastSliceRoot(crate::poolsim::to_bid(&known)));
+        cl.net.inject((Ep::RepairResp, target), ser(&req));
+        tokio::time::sleep(Duration::from_millis(600)).await;
+        probe = Some(ep_r.try_receive_raw().and_then(|b| de_repair_resp(&b)).is_some());
     }
     // collect
     let correct = cl.correct();
@@ -274,6 +329,10 @@ pub async fn execute(cfg: &RunCfg, rng: &mut SRng) -> RunOut {
         byz_votes_sent: byz.votes_sent,
         byz_certs_sent: byz.certs_sent,
         byz_modes,
+        skip_cert_bytes: std::mem::take(&mut l.skip_cert_bytes),
+        hostile_sent,
+        hostile_roles,
+        probe,
     }
 }
 
@@ -364,9 +423,18 @@ pub fn safety_oracle(cfg: &RunCfg, out: &RunOut) -> (Vec<Finding>, Value) {
     // directly finalized slots must not be skip-certified (certificates on the wire, held, or constructible)
     let total = cfg.ep.total();
     let mut skip_cert: BTreeSet<u64> = BTreeSet::new();
-    for (_, _, c) in out.certs_sent.iter().chain(out.certs_delivered.iter()) {
-        if c.kind == CK::Skip {
-            skip_cert.insert(c.slot);
+    // skip certificates seen on the wire count only if they validate (anybody can put bytes on the wire)
+    for (slot, raws) in &out.skip_cert_bytes {
+        if !direct.contains(slot) {
+            continue;
+        }
+        for raw in raws {
+            if let Some(alpenglow::consensus::ConsensusMessage::Cert(c)) = de_consensus(raw) {
+                if alpenglow::consensus::ValidatedCert::try_new(c, &cfg.ep.info).is_ok() {
+                    skip_cert.insert(*slot);
+                    break;
+                }
+            }
         }
     }
     for cs in out.held.values() {
@@ -441,7 +509,11 @@ pub fn voting_rules_oracle(cfg: &RunCfg, out: &RunOut) -> (Vec<Finding>, u64) {
         let mine: Vec<(Duration, &crate::model::MVote)> = out.votes_sent.iter().filter(|(_, s, v)| *s == node && v.signer == node).map(|(t, _, v)| (*t, v)).collect();
         let mut per_slot: BTreeMap<u64, Vec<(Duration, &crate::model::MVote)>> = BTreeMap::new();
         for (t, v) in &mine {
-            per_slot.entry(v.slot).or_default().push((*t, v));
+            // identical votes are re-broadcast by standstill recovery: only the first emission counts
+            let e = per_slot.entry(v.slot).or_default();
+            if !e.iter().any(|(_, x)| x.kind == v.kind && x.hash == v.hash) {
+                e.push((*t, v));
+            }
         }
         for (slot, vs) in &per_slot {
             judged += 1;
